@@ -273,6 +273,7 @@ func main() {
 		}
 		// ---- template state ----
 		var setup [][]byte
+		siblings := false
 		tid := uint16(256 + r.IntN(1000))
 		cls := sc
 		switch sc {
@@ -295,11 +296,37 @@ func main() {
 			setup = append(setup, tmplMsg(domain, mkTemplate(r, mode, "natural", tid+1)))
 			setup = append(setup, tmplMsg(domain+1, mkTemplate(r, mode, "natural", tid)))
 		}
+		if mode != mirror.Strict && len(setup) > 0 && r.IntN(3) == 0 {
+			// the unknown elements of the template in force also occur, announced with OTHER lengths, in templates of
+			// another domain and another id, received before and after it: the width of a field is the one the
+			// template in force announced, not one remembered by element id
+			if _, fields, _, err := refipfix.ParseTemplateRecord(setup[0][20:]); err == nil {
+				sib := func(delta int) []refipfix.Field {
+					var out []refipfix.Field
+					for _, f := range fields {
+						if _, known := reg.Lookup(f.Ent, f.ID); !known && f.Len != refipfix.VarLen {
+							g := f
+							g.Len = uint16((int(f.Len) + delta) % 40)
+							out = append(out, g)
+						}
+					}
+					return out
+				}
+				if a, b := sib(3), sib(7); len(a) > 0 {
+					setup = append([][]byte{tmplMsg(domain+7, tdef{tid: tid + 5, fields: a})}, setup...)
+					setup = append(setup, tmplMsg(domain, tdef{tid: tid + 6, fields: b}))
+					siblings = true
+				}
+			}
+		}
 		model := mirror.Table{}
 		for _, m := range setup {
 			model.Apply(reg, mode, m)
 		}
 		lay := model[mirror.Key{Domain: domain, TID: tid}]
+		if siblings {
+			c.Add("states_with_the_same_unknown_elements_at_other_widths_in_sibling_templates", 1)
+		}
 		// ---- inputs ----
 		var inputs []input
 		kindSel := r.IntN(10)
